@@ -43,8 +43,12 @@ fn dec_value(t: &[u8; 12], len: usize) -> Option<i64> {
 }
 #[kani::proof]
 #[kani::stub(std::fmt::format, nofmt)]
-fn prim2_integer_ser() {
-    let i: i32 = kani::any();
+fn prim2_integer_ser() { integer_ser(kani::any()) }
+/// the same over the 16-bit integers only (at most five digits)
+#[kani::proof]
+#[kani::stub(std::fmt::format, nofmt)]
+fn prim2_integer_ser_i16() { integer_ser(kani::any::<i16>() as i32) }
+fn integer_ser(i: i32) {
     let p = Primitive::Integer(i);
     let mut out: Vec<u8> = Vec::with_capacity(12);
     let r = p.serialize(&mut out);
@@ -54,5 +58,65 @@ fn prim2_integer_ser() {
     let mut t = [0u8; 12];
     let mut k = 0; while k < out.len() { t[k] = out[k]; k += 1; }
     assert!(dec_value(&t, out.len()) == Some(i as i64));
+    std::mem::forget(out); std::mem::forget(p);
+}
+
+/// 2^16-wide windows at the interesting places of the i32 range (digit-count boundaries, both ends): base + k, k any u16
+#[kani::proof]
+#[kani::stub(std::fmt::format, nofmt)]
+fn prim2_integer_ser_windows() {
+    let k = kani::any::<u16>() as i32;
+    integer_ser(i32::MIN + k);
+    integer_ser(i32::MAX - k);
+    integer_ser(999_990_000 + k);      // 9 -> 10 digits
+    integer_ser(-1_000_030_000 + k);   // 10 -> 9 digits, negative
+    integer_ser(99_970_000 + k);       // 8 -> 9 digits
+    integer_ser(970_000 + k);          // 6 -> 7 digits
+}
+/// every 24-bit integer
+#[kani::proof]
+#[kani::stub(std::fmt::format, nofmt)]
+fn prim2_integer_ser_i24() {
+    let k: i32 = kani::any();
+    kani::assume(k >= -(1 << 23) && k < (1 << 23));
+    integer_ser(k);
+}
+
+/// null and booleans are written as the keywords `null`, `true`, `false`; a reference as `id gen R` (id, gen from 16-bit windows)
+#[kani::proof]
+#[kani::stub(std::fmt::format, nofmt)]
+fn prim2_keyword_ser() {
+    let b: bool = kani::any();
+    let mut out: Vec<u8> = Vec::with_capacity(8);
+    let r = Primitive::Boolean(b).serialize(&mut out);
+    assert!(r.is_ok()); std::mem::forget(r);
+    if b { assert!(out.len() == 4 && out[0] == b't' && out[1] == b'r' && out[2] == b'u' && out[3] == b'e'); }
+    else { assert!(out.len() == 5 && out[0] == b'f' && out[1] == b'a' && out[2] == b'l' && out[3] == b's' && out[4] == b'e'); }
+    std::mem::forget(out);
+    let mut out: Vec<u8> = Vec::with_capacity(8);
+    let r = Primitive::Null.serialize(&mut out);
+    assert!(r.is_ok()); std::mem::forget(r);
+    assert!(out.len() == 4 && out[0] == b'n' && out[1] == b'u' && out[2] == b'l' && out[3] == b'l');
+    std::mem::forget(out);
+}
+#[kani::proof]
+#[kani::stub(std::fmt::format, nofmt)]
+fn prim2_reference_ser() {
+    let id = kani::any::<u16>() as u64;
+    let gen = kani::any::<u8>() as u64;
+    let p = Primitive::Reference(PlainRef { id, gen });
+    let mut out: Vec<u8> = Vec::with_capacity(12);
+    let r = p.serialize(&mut out);
+    assert!(r.is_ok()); std::mem::forget(r);
+    assert!(out.len() >= 5 && out.len() <= 11);
+    // id, one space, gen, one space, R
+    let mut t = [0u8; 12]; let mut n = 0; let mut i = 0;
+    while i < out.len() && out[i] != b' ' { t[n] = out[i]; n += 1; i += 1; }
+    assert!(dec_value(&t, n) == Some(id as i64) && n > 0 && t[0] != b'-');
+    assert!(i < out.len() && out[i] == b' '); i += 1;
+    let mut t = [0u8; 12]; let mut n = 0;
+    while i < out.len() && out[i] != b' ' { t[n] = out[i]; n += 1; i += 1; }
+    assert!(dec_value(&t, n) == Some(gen as i64) && n > 0 && t[0] != b'-');
+    assert!(i + 2 == out.len() && out[i] == b' ' && out[i + 1] == b'R');
     std::mem::forget(out); std::mem::forget(p);
 }
